@@ -274,7 +274,40 @@ def instance_skipped_only_for_documented_reasons(ctx):
                   % [(k, p) for k, p in facts][:4])
 
 
+def instances_leave_only_through_the_sweep(ctx):
+    """'Every matching cgroup has its own detector windows, post-action pause and suspended chain, which persist from tick to tick while the
+    cgroup exists': per-cgroup instances are taken out of runnable_rulesets_ only by Ruleset::runOnce's sweep of the cgroups it did not
+    visit on this tick.  Nothing else erases, clears, replaces or moves the map (enabling / disabling the ruleset, drop-in bookkeeping)."""
+    P = ctx.prog
+    SHRINK = {"erase", "clear", "extract", "swap", "operator=", "assign", "merge", "erase_if", "remove_if"}
+    n = 0
+    for f in sorted(P.fns.values(), key=lambda x: (x.file, x.line, x.usr)):
+        if not f.file.startswith("oomd/") or f.file.endswith("Test.cpp"):
+            continue
+        for i, nd in enumerate(f.nodes):
+            if nd["k"] not in ("call", "bin") or f.pos_of(i) is None:
+                continue
+            recv = f.text(nd["recv"]) if "recv" in nd else (f.text(nd["l"]) if nd["k"] == "bin" and nd.get("op") == "=" else "")
+            touches = recv.endswith("runnable_rulesets_") or (nd["k"] == "call" and nd.get("cname") in ("erase_if", "swap", "exchange") and any(
+                re.match(r"^(this->)?runnable_rulesets_$", f.text(a)) for a in nd.get("args", [])))
+            if not touches or not ((nd.get("cname") or "") in SHRINK or nd.get("op") == "="):
+                continue
+            n += 1
+            owner = f
+            while owner.kind == "lambda" and owner.d.get("parentfn") in P.fns:
+                owner = P.fns[owner.d["parentfn"]]
+            ctx.use(f)
+            ctx.check(owner.pq == "Oomd::Engine::Ruleset::runOnce" and (nd.get("cname") or "") in ("erase", "erase_if"),
+                      "instances-leave-only-through-the-sweep:%s@%s" % (short(owner), nd.get("cname") or nd.get("op")), "who-may-write (removal)", f.loc(i),
+                      "per-cgroup instances are removed only by runOnce's sweep of unvisited cgroups",
+                      "%s removes per-cgroup instances from runnable_rulesets_ (%s) outside the sweep of Ruleset::runOnce: cgroups that still exist lose their "
+                      "detector windows, post-action pause and suspended chain" % (owner.pq, f.text(i)[:60]))
+    ctx.counters["instance_map_removals"] = n
+    ctx.floor("instance_map_removals", 1, "removing operations on runnable_rulesets_ (the sweep in runOnce)")
+
+
 def run(ctx):
+    instances_leave_only_through_the_sweep(ctx)
     from .C05 import invoking_ruleset_rule
     invoking_ruleset_rule(ctx)
     from .C06 import resume_restores_instance_context
